@@ -136,6 +136,13 @@ def run_guarded(mod, case, ctx, timeout_s):
         if len(ctx.timeouts) < 20:
             ctx.timeouts.append(case)
         return False
+    except StepBudgetExceeded:
+        raise
+    except Exception:
+        # an exception escaping the check's own code: the monitor could not decide this case
+        signal.setitimer(signal.ITIMER_REAL, 0)
+        ctx.inconclusive_note("harness-exception in run_case: " + traceback.format_exc()[-1500:])
+        return False
     finally:
         signal.setitimer(signal.ITIMER_REAL, 0)
         ctx.current_case = None
